@@ -417,7 +417,7 @@ func (c14) Exec(c Case) [][][]string {
 		}
 	}
 	// synchronous path: one EmitSync per row, on a fresh copy of the row (C20 is not ours)
-	s := streamsql.New(streamsql.WithDiscardLog(), streamsql.WithAnalyticMaxPartitions(q.cap))
+	s := streamsql.New(presetOpt(), streamsql.WithDiscardLog(), streamsql.WithAnalyticMaxPartitions(q.cap))
 	execErr := s.Execute(q.sql)
 	if execErr != nil {
 		fail("sync", "exec-error:"+hx(execErr.Error()))
@@ -475,7 +475,7 @@ func c14Async(q c14Query, c Case) ([][]string, bool) {
 			}
 		}
 	}
-	a := streamsql.New(streamsql.WithDiscardLog(), streamsql.WithAnalyticMaxPartitions(q.cap))
+	a := streamsql.New(presetOpt(), streamsql.WithDiscardLog(), streamsql.WithAnalyticMaxPartitions(q.cap))
 	if err := a.Execute(q.sql); err != nil {
 		fail("exec-error:" + hx(err.Error()))
 		return lines, true
